@@ -699,7 +699,10 @@ DISPENSO_INLINE void ThreadPool::scheduleImplPlaced(
     int32_t sleeping = ws->totalSleeping();
     if (sleeping > 0 &&
         numNotWorking_.load(std::memory_order_relaxed) - sleeping < kSpinnerWakeThreshold) {
-      int32_t wokeThread = ws->claimAndWakeOne();
+      // Claim first, make the task visible, wake last. Waking before the push left a window in
+      // which the woken worker looked, found nothing and parked again before the task arrived, with
+      // nobody awake for it afterwards.
+      int32_t wokeThread = ws->claimOne();
       if (wokeThread >= 0) {
         size_t stealIdx = static_cast<size_t>(wokeThread) / stealRingSharing_;
         if (stealIdx < numStealRings_.load(std::memory_order_relaxed) &&
@@ -707,8 +710,12 @@ DISPENSO_INLINE void ThreadPool::scheduleImplPlaced(
           if (stealIdx < kMaxStealRings) {
             stealRingsWithWork_.fetch_or(uint64_t{1} << stealIdx, std::memory_order_release);
           }
+          ws->waiterFor(wokeThread).bumpAndWake();
           return;
         }
+        // Could not place the task: the claimed sleeper still has to be woken; the task goes to the
+        // central queue below.
+        ws->waiterFor(wokeThread).bumpAndWake();
       }
     }
   }
